@@ -1,3 +1,248 @@
 import Driver.Common
--- stub driver for C19 (replaced when the property's model is built)
-def main (args : List String) : IO UInt32 := Driver.main' (fun _ => "bad-op") (fun _ _ => "fail bad-op") args
+import GilVerif.Model.C19
+open Driver GilVerif.Model.C19
+
+def splitOn' (sep : String) (ws : List String) : List (List String) :=
+  let rec go (ws : List String) (cur : List String) (acc : List (List String)) : List (List String) :=
+    match ws with
+    | [] => (cur.reverse :: acc).reverse
+    | w :: rest => if w = sep then go rest [] (cur.reverse :: acc) else go rest (w :: cur) acc
+  go ws [] []
+
+def vtInfo : String → Option (Ch × Nat)
+  | "g8" => some (.u8, 1) | "g8s" => some (.i8, 1) | "g16" => some (.u16, 1) | "g16s" => some (.i16, 1)
+  | "d2_8" => some (.u8, 2) | "rgb8" => some (.u8, 3) | "rgb8s" => some (.i8, 3) | "rgb16" => some (.u16, 3)
+  | "rgba8" => some (.u8, 4) | _ => none
+
+def selOf (s : String) : List Nat := if s == "all" then [] else s.toList.map (fun ch => ch.toNat - '0'.toNat)
+
+def pixelsOf (n : Nat) (planes : List (List Int)) : List (List Int) :=
+  (List.range n).map fun (i : Nat) => planes.map fun p => p.getD i 0
+
+def showKey (k : Key) : String := ",".intercalate (k.map toString)
+def showHist (h : Hist) : String :=
+  if h.isEmpty then "-" else " ".intercalate ((sortHist h).map fun kv => showKey kv.1 ++ ":" ++ toString kv.2)
+
+def parseKey (s : String) : Option Key := (s.splitOn ",").mapM String.toInt?
+def parseBins (ws : List String) : Option Hist :=
+  if ws == ["-"] then some [] else
+  ws.mapM fun w => match w.splitOn ":" with
+    | [k, c] => match parseKey k, c.toNat? with
+      | some k, some c => some (k, c)
+      | _, _ => none
+    | _ => none
+
+structure Fh where
+  a : FillArgs
+  acc : Bool
+  sparse : Bool
+  n : Nat
+  pixA : List (List Int)
+  pixB : List (List Int)
+  mask : List Bool
+
+def parseFh (line : String) : Option Fh :=
+  match splitOn' "|" (words line) with
+  | [_op, vt, sel, bw, acc, sparse, am, sl, w, h] :: lower :: upper :: mask :: planesW =>
+    match vtInfo vt, ints [bw, w, h], ints lower, ints upper, ints mask, planesW.mapM ints with
+    | some (c, nc), some [bw, w, h], some lower, some upper, some mask, some planes =>
+      let n := (w * h).toNat
+      if planes.length ≠ 2 * nc ∨ bw < 1 then none else
+      some { a := { c := c, bw := bw, sel := selOf sel, applymask := am == "1", setlimits := sl == "1", lower := lower, upper := upper },
+             acc := acc == "1", sparse := sparse == "1", n := n,
+             pixA := pixelsOf n (planes.take nc), pixB := pixelsOf n (planes.drop nc), mask := mask.map (· ≠ 0) }
+    | _, _, _, _, _, _ => none
+  | _ => none
+
+def plainArgs (a : FillArgs) : FillArgs := { a with applymask := false, setlimits := false }
+
+def modelFh (o : Fh) : String :=
+  let h1 := fillHistogram (plainArgs o.a) false true [] (o.pixA.map fun p => (p, true))
+  let h2 := fillHistogram o.a o.acc o.sparse h1 (o.pixB.zip (o.mask ++ List.replicate o.n true))
+  showHist h2
+
+/-- Spec key: channels divided by the bin width, with rounding `fl` (floor) or truncation -/
+def specKey (fl : Bool) (a : FillArgs) (px : List Int) : Key :=
+  let scaled := px.map fun ch => if fl then ch / a.bw else Int.tdiv ch a.bw
+  if a.sel.isEmpty then scaled else a.sel.map fun i => scaled.getD i 0
+
+def specCounted (fl : Bool) (a : FillArgs) (m : Bool) (px : List Int) : Bool :=
+  (!a.applymask || m) && (!a.setlimits || (tupleCompare a.lower (specKey fl a px) && tupleCompare (specKey fl a px) a.upper))
+
+def specFill (fl : Bool) (a : FillArgs) (h : Hist) (pixels : List (List Int × Bool)) : Hist :=
+  pixels.foldl (fun h pm => if specCounted fl a pm.2 pm.1 then h.add (specKey fl a pm.1) 1 else h) h
+
+def dim (a : FillArgs) (px : List (List Int)) : Nat := if a.sel.isEmpty then (px.head?.map (·.length)).getD 1 else a.sel.length
+
+/-- Spec of the two-step op: previous contents kept iff accumulate; dense fill makes every key of the range present -/
+def specFh (fl : Bool) (o : Fh) : Hist :=
+  let h1 := specFill fl (plainArgs o.a) [] (o.pixA.map fun p => (p, true))
+  let h2 : Hist := if o.acc then h1 else []
+  let lo := o.a.lower.headD 0; let hi := o.a.upper.headD 0
+  let h3 : Hist := if !o.sparse && dim o.a o.pixB == 1 && lo ≤ hi then
+      (List.range ((hi / o.a.bw - lo / o.a.bw).toNat + 1)).foldl (fun h (i : Nat) => h.add [lo / o.a.bw + (i : Int)] 0) h2
+    else h2
+  specFill fl o.a h3 (o.pixB.zip (o.mask ++ List.replicate o.n true))
+
+/-- equal as maps from keys to counts (an absent bin is a bin of count 0: the property does not speak about which zero bins exist) -/
+def sameHist (a b : Hist) : Bool := sortHist (a.filter (·.2 ≠ 0)) == sortHist (b.filter (·.2 ≠ 0))
+
+def judgeFh (o : Fh) (obs : String) : String :=
+  match parseBins (words obs) with
+  | none => "fail not-a-histogram:" ++ obs.take 40
+  | some impl =>
+    let s1 := specFh true o; let s2 := specFh false o
+    if sameHist impl s1 || sameHist impl s2 then "ok"
+    else
+      let negative := (o.pixA ++ o.pixB).any fun p => p.any (· < 0)
+      if o.acc && !o.sparse && dim o.a o.pixB == 1 then "fail accumulate-adds-to-previous-contents"
+      else if negative && o.a.bw > 1 then "fail bin-key-is-channel-divided-by-bin-width"
+      else if impl.mass ≠ s1.mass then "fail mass-conservation"
+      else "fail bin-exactness"
+
+/-! cumulative / normalize / sub-histograms -/
+
+structure Simple where
+  op : String
+  c : Ch
+  nc : Nat
+  sel : List Nat
+  bw : Int
+  n : Nat
+  pix : List (List Int)
+  lo : Int
+  hi : Int
+
+def parseSimple (line : String) : Option Simple :=
+  match splitOn' "|" (words line) with
+  | (op :: vt :: sel :: bw :: w :: h :: rest) :: planesW =>
+    match vtInfo vt, ints [bw, w, h], ints rest, planesW.mapM ints with
+    | some (c, nc), some [bw, w, h], some rest, some planes =>
+      if planes.length ≠ nc ∨ bw < 1 then none else
+      let n := (w * h).toNat
+      some { op := op, c := c, nc := nc, sel := selOf sel, bw := bw, n := n, pix := pixelsOf n planes, lo := rest.getD 0 0, hi := rest.getD 1 0 }
+    | _, _, _, _ => none
+  | _ => none
+
+def argsOf (o : Simple) (sel : List Nat) : FillArgs :=
+  { c := o.c, bw := o.bw, sel := sel, applymask := false, setlimits := false, lower := [], upper := [] }
+
+def filled (o : Simple) (sel : List Nat) : Hist := fill (argsOf o sel) [] (o.pix.map fun p => (p, true))
+def specFilled (fl : Bool) (o : Simple) (sel : List Nat) : Hist := specFill fl (argsOf o sel) [] (o.pix.map fun p => (p, true))
+
+def f64 (c tot : Nat) : Float := Float.ofNat c / Float.ofNat tot
+
+def modelSimple (o : Simple) : String :=
+  match o.op with
+  | "cu" => let h := filled o o.sel; showHist (cumulative (if o.sel.isEmpty then o.nc else o.sel.length) h)
+  | "sa" => showHist (subAxes o.sel (filled o []))
+  | "sr" => showHist (subRange o.sel (List.replicate o.nc o.lo) (List.replicate o.nc o.hi) (filled o []))
+  | "no" =>
+    let h := filled o o.sel
+    if h.isEmpty then "-" else
+    " ".intercalate ((sortHist h).map fun kv => showKey kv.1 ++ ":" ++ toString kv.2 ++ ":" ++ toString (f64 kv.2 h.mass).toBits.toNat)
+  | _ => "bad-op"
+
+def judgeCu (o : Simple) (impl : Hist) : String :=
+  let ok := fun (base : Hist) =>
+    sortHist (impl.map (·.1) |>.map fun k => (k, 0)) == sortHist (base.map fun kv => (kv.1, 0))
+  if !(ok (specFilled true o o.sel) || ok (specFilled false o o.sel)) then "fail cumulative-keeps-the-keys" else
+  -- monotone along every axis: k1 ≤ k2 component-wise ⇒ c1 ≤ c2
+  if impl.any (fun a => impl.any fun b => tupleCompare a.1 b.1 && decide (a.2 > b.2)) then "fail cumulative-monotone"
+  else
+    -- a bin whose key dominates every key holds the total
+    match impl.find? (fun a => impl.all fun b => tupleCompare b.1 a.1) with
+    | some top => if top.2 = o.n then "ok" else "fail cumulative-last-bin-is-total"
+    | none => "ok"
+
+def judgeSimple (o : Simple) (obs : String) : String :=
+  match o.op with
+  | "no" =>
+    if obs == "-" then (if o.n = 0 then "ok" else "fail shape") else
+    let parts := (words obs).map fun w => w.splitOn ":"
+    let vals := parts.filterMap fun p => match p with
+      | [_, c, b] => match c.toNat?, b.toNat? with
+        | some c, some b => some (c, Float.ofBits b.toUInt64)
+        | _, _ => none
+      | _ => none
+    if vals.length ≠ parts.length then "fail not-a-histogram" else
+    let tot := (vals.map (·.1)).sum
+    let s := vals.foldl (fun acc v => acc + v.2) 0.0
+    if tot ≠ o.n then "fail mass-conservation"
+    else if Float.abs (s - 1.0) > 1.0e-12 then "fail normalize-sums-to-one"
+    else if vals.any (fun v => Float.abs (v.2 - f64 v.1 tot) > 1.0e-15) then "fail normalize-bin-is-count-over-total"
+    else "ok"
+  | _ =>
+    match parseBins (words obs) with
+    | none => "fail not-a-histogram:" ++ obs.take 40
+    | some impl =>
+      match o.op with
+      | "cu" => judgeCu o impl
+      | "sa" =>
+        let spec := fun fl => subAxesSpec (specFilled fl o [])
+        if impl.mass ≠ o.n then "fail marginal-preserves-mass"
+        else if sameHist impl (spec true) || sameHist impl (spec false) then "ok" else "fail marginal-is-sum-over-dropped-axes"
+      | "sr" =>
+        let spec := fun fl => (specFilled fl o []).filter fun kv =>
+          keyLe (project o.sel (List.replicate o.nc o.lo)) (project o.sel kv.1) && keyLe (project o.sel kv.1) (project o.sel (List.replicate o.nc o.hi))
+        if sameHist impl (spec true) || sameHist impl (spec false) then "ok" else "fail range-keeps-exactly-the-bins-in-range"
+      | _ => "fail bad-op"
+where
+  subAxesSpec (h : Hist) : Hist :=
+    -- marginal: for every projected key the sum of the counts of all bins projecting onto it
+    let keys := (h.map fun kv => project o.sel kv.1).eraseDups
+    keys.map fun k => (k, ((h.filter fun kv => project o.sel kv.1 == k).map (·.2)).sum)
+
+/-! std containers -/
+
+def modelSt (vt : String) (n : Nat) (plane : List Int) : String :=
+  let size := if vt == "g8" then 256 else 65536
+  let v := vectorFill size [] plane
+  let nz := fun (v : List Nat) => " ".intercalate (v.zipIdx.filterMap fun (ci : Nat × Nat) => if ci.1 ≠ 0 then some (toString ci.2 ++ ":" ++ toString ci.1) else none)
+  let v2 := vectorFill size v plane
+  let sp := fill { c := if vt == "g8" then .u8 else .u16, bw := 1, sel := [], applymask := false, setlimits := false, lower := [], upper := [] } [] (plane.map fun p => ([p], true))
+  let _ := n
+  toString size ++ " : " ++ nz v ++ " | " ++ nz v ++ " | " ++ (if vt == "g8" then nz v else "") ++ " | " ++ showHist sp ++ " | " ++ nz v2 ++ " | " ++ nz v2
+
+def judgeSt (vt : String) (plane : List Int) (obs : String) : String :=
+  match splitOn' "|" (words obs) with
+  | [sz :: ":" :: vec, mp, arr, sparse, vec2, mp2] =>
+    let counts : Hist := (plane.eraseDups).map fun v => ([v], (plane.filter (· == v)).length)
+    let twice : Hist := counts.map fun kv => (kv.1, 2 * kv.2)
+    match parseBins vec, parseBins mp, parseBins arr, parseBins sparse, parseBins vec2, parseBins mp2 with
+    | some vec, some mp, some arr, some sparse, some vec2, some mp2 =>
+      let fix := fun (h : Hist) => if h == [] then ([] : Hist) else h
+      if sz ≠ (if vt == "g8" then "256" else "65536") then "fail vector-size"
+      else if !sameHist (fix sparse) counts then "fail bin-exactness"
+      else if !sameHist vec counts then "fail std-vector-agrees-with-sparse"
+      else if !sameHist mp counts then "fail std-map-agrees-with-sparse"
+      else if vt == "g8" && !sameHist arr counts then "fail std-array-agrees-with-sparse"
+      else if !sameHist vec2 twice || !sameHist mp2 twice then "fail std-accumulate-adds"
+      else "ok"
+    | _, _, _, _, _, _ => "fail not-a-histogram"
+  | _ => "fail shape"
+
+def parseSt (line : String) : Option (String × Nat × List Int) :=
+  match splitOn' "|" (words line) with
+  | ["st", vt, w, h] :: [planeW] =>
+    match ints [w, h], ints planeW with
+    | some [w, h], some plane => some (vt, (w * h).toNat, plane)
+    | _, _ => none
+  | _ => none
+
+def model (line : String) : String :=
+  match (words line).head? with
+  | some "fh" | some "hk" => match parseFh line with | some o => modelFh o | none => "bad-op"
+  | some "st" => match parseSt line with | some (vt, n, p) => modelSt vt n p | none => "bad-op"
+  | some _ => match parseSimple line with | some o => modelSimple o | none => "bad-op"
+  | none => "bad-op"
+
+def judge (op obs : String) : String :=
+  if obs.startsWith "assert:" || obs.startsWith "ub:" || obs.startsWith "crash" || obs.startsWith "timeout" then "fail no-abort" else
+  match (words op).head? with
+  | some "fh" | some "hk" => match parseFh op with | some o => judgeFh o obs | none => "fail bad-op"
+  | some "st" => match parseSt op with | some (vt, _, p) => judgeSt vt p obs | none => "fail bad-op"
+  | some _ => match parseSimple op with | some o => judgeSimple o obs | none => "fail bad-op"
+  | none => "fail bad-op"
+
+def main (args : List String) : IO UInt32 := Driver.main' model judge args
